@@ -3,6 +3,7 @@ package health
 import (
 	"errors"
 	"fmt"
+	"sync"
 	"sync/atomic"
 	"time"
 
@@ -21,6 +22,9 @@ type Prober struct {
 	onCheckEndFunc func(bool, bool, string)
 	hc             *health.Health
 	stopped        atomic.Bool
+	// hcMtx serializes starting and stopping the health checker: a check
+	// result may ask for a stop while Start() is still registering the runner
+	hcMtx sync.Mutex
 }
 
 func New(name string, probe Probe, onCheckEnd func(bool, bool, string)) (*Prober, error) {
@@ -50,9 +54,13 @@ func New(name string, probe Probe, onCheckEnd func(bool, bool, string)) (*Prober
 }
 
 func (p *Prober) Start() {
+	// cleared before the goroutine is scheduled: a Stop() that follows this
+	// call must not be undone by it
+	p.stopped.Store(false)
 	go func() {
-		p.stopped.Store(false)
 		time.Sleep(time.Duration(p.probe.InitialDelay) * time.Second)
+		p.hcMtx.Lock()
+		defer p.hcMtx.Unlock()
 		if p.stopped.Load() {
 			return
 		}
@@ -67,6 +75,8 @@ func (p *Prober) Start() {
 
 func (p *Prober) Stop() {
 	if p.hc != nil {
+		p.hcMtx.Lock()
+		defer p.hcMtx.Unlock()
 		_ = p.hc.Stop()
 		p.stopped.Store(true)
 	}
